@@ -14,6 +14,9 @@
 //!   KIND 5: actor 0 = blocking recv_view on ux0              actor 1: tx0 sends 1
 //!   KIND 6: actor 0 = blocking recv on rx0; tx1 = clone of tx0 exists
 //!           actor 1: drops tx1, then tx0 sends 1 (the sender falls back to single-writer mode)
+//!   KIND 7: actor 0 = blocking recv on rx0; tx1 = clone of tx0 exists
+//!           actor 1: drops tx0      actor 2: drops tx1      (nesting depth 2: one drop may be
+//!           preempted by the other while the receiver is parked)
 //! With `lap` the ring is first lapped once (N sends, N receives): on a never-written slot the
 //! wait condition is immediately true (the initial tag counts as "ahead"), so only on a lapped
 //! ring does the receiver really go to sleep.
@@ -37,11 +40,11 @@ pub fn op_u_view_blocking<F: Fl>(slot: usize, ux: usize) {
 }
 
 impl<F: Fl, const KIND: u8> Prog for Wt<F, KIND> {
-    const NACT: usize = if KIND == 4 { 3 } else { 2 };
+    const NACT: usize = if KIND == 4 || KIND == 7 { 3 } else { 2 };
     const LEN: [u8; MAXACT] = [
         1,
         if KIND == 2 || KIND == 4 || KIND == 6 { 2 } else { 1 },
-        if KIND == 4 { 1 } else { 0 },
+        if KIND == 4 || KIND == 7 { 1 } else { 0 },
         0,
     ];
     const BASE: [usize; MAXACT] = [0, 4, 8, 0];
@@ -51,6 +54,8 @@ impl<F: Fl, const KIND: u8> Prog for Wt<F, KIND> {
             (5, 0, _) => op_u_view_blocking::<F>(0, 0),
             (_, 0, _) => op_recv_blocking::<F>(0, 0),
             (3, 1, _) => op_drop_tx::<F>(4, 0),
+            (7, 1, _) => op_drop_tx::<F>(4, 0),
+            (7, _, _) => op_drop_tx::<F>(8, 1),
             (6, 1, 0) => op_drop_tx::<F>(5, 1),
             (2, 1, 1) => op_drop_tx::<F>(5, 0),
             (4, 1, 1) => op_send::<F>(5, 0, 2),
@@ -66,6 +71,7 @@ impl<F: Fl, const KIND: u8> Prog for Wt<F, KIND> {
         let senders_gone = match KIND {
             2 => l.recs[5].res == R_DONE,
             3 => l.recs[4].res == R_DONE,
+            7 => l.recs[4].res == R_DONE && l.recs[8].res == R_DONE,
             _ => false,
         };
         kani::cover!(acc == del && !senders_gone, "a waiter was legitimately left blocked");
@@ -89,13 +95,14 @@ pub fn blocked_recv_lap<F: Fl, const KIND: u8>(cap: u64, idle_limit: u32, lap: u
     payload::reset();
     // one operation per site; the budget is the number of operations the others have
     let others: u8 = match KIND {
-        2 | 6 => 2,
+        2 | 6 | 7 => 2,
         4 => 3,
         _ => 1,
     };
+    let depth: u8 = if KIND == 7 { 2 } else { 1 };
     // window: in front of loads, lock operations and notifications (the waiter's own stores / RMWs
     // - its position commit - are not preemption points in these harnesses)
-    sched::configure(1, others, sched::WIN_LOADS | (1 << 3) | (1 << 4) | (1 << 6) | (1 << 7) | (1 << 9), 1);
+    sched::configure(depth, others, sched::WIN_LOADS | (1 << 3) | (1 << 4) | (1 << 6) | (1 << 7) | (1 << 9), 1);
     sched::st().idle_limit = if idle_limit == 0 { 24 } else { idle_limit };
     let mut w = World::<F>::new(cap);
     set_world::<F>(&mut w);
@@ -111,7 +118,7 @@ pub fn blocked_recv_lap<F: Fl, const KIND: u8>(cap: u64, idle_limit: u32, lap: u
         assert!(lg().recs[rs].res == R_OK, "C09: a receive on a non-empty quiescent queue did not deliver");
         i += 1;
     }
-    if KIND == 6 {
+    if KIND == 6 || KIND == 7 {
         w.tx[1] = Some(F::clone_tx(w.tx[0].as_ref().unwrap()));
     }
     if KIND == 4 {
@@ -140,6 +147,10 @@ pub fn blocked_recv_lap<F: Fl, const KIND: u8>(cap: u64, idle_limit: u32, lap: u
             ledger::declare_other(5, 1);
             ledger::declare_send(4, 1, 1);
         }
+        7 => {
+            ledger::declare_other(4, 1);
+            ledger::declare_other(8, 2);
+        }
         _ => ledger::declare_send(4, 1, 1),
     }
     run_concurrent::<Wt<F, KIND>, 0>();
@@ -151,7 +162,13 @@ pub fn blocked_recv_lap<F: Fl, const KIND: u8>(cap: u64, idle_limit: u32, lap: u
     kani::cover!(r.res == R_OK, "the blocked receiver returned a value");
     kani::cover!(sched::st().injected > 0, "an operation ran while the receiver was waiting");
     if r.res == R_DISC {
-        assert!(KIND == 2 || KIND == 3, "C07: a blocked receive reported the end while a sender was alive");
+        assert!(KIND == 2 || KIND == 3 || KIND == 7, "C07: a blocked receive reported the end while a sender was alive");
+        if KIND == 7 {
+            assert!(
+                lg().recs[8].tb != 0 && lg().recs[8].tb < r.te,
+                "C07: a blocked receive reported the end before the last sender's drop began"
+            );
+        }
         let dslot = if KIND == 2 { 5 } else { 4 };
         assert!(
             lg().recs[dslot].tb != 0 && lg().recs[dslot].tb < r.te,
@@ -202,6 +219,7 @@ wt!(c08_mp_blk00_drop_lap, hk_c08_mp_blk00_drop_lap, MpBlk00, 3, 0, cap 1, lap 1
 wt!(c08_bc_blk00_sibling_lap, hk_c08_bc_blk00_sibling_lap, BcBlk00, 4, 0, cap 1, lap 1);
 wt!(c08_mp_blk00_lonesender_lap, hk_c08_mp_blk00_lonesender_lap, MpBlk00, 6, 0, cap 1, lap 1);
 wt!(c08_bc_blk11_lonesender_lap, hk_c08_bc_blk11_lonesender_lap, BcastPlain<u8, Blocking<1, 1>>, 6, 0, cap 2, lap 2);
+wt!(c08_mp_blk00_twodrops_lap, hk_c08_mp_blk00_twodrops_lap, MpBlk00, 7, 0, cap 1, lap 1);
 wt!(c08_bc_blk20_view_lap, hk_c08_bc_blk20_view_lap, BcBlk20, 5, 0, cap 1, lap 1);
 // spinning strategies: the stuck detector fires after 24 fruitless steps with nobody left to run
 wt!(c08_mp_busy_send, hk_c08_mp_busy_send, MpBusy, 1, 24);
